@@ -239,6 +239,8 @@ func (p *Path) intrinsic(fn *ssa.Function, args []Value) (Value, bool) {
 		}
 		p.assume(c)
 		return nil, true
+	case "verifHasPrefix":
+		return mkPrefixOf(args[1].(*Term), args[0].(*Term)), true
 	case "verifContainsNewline":
 		return mkContains(args[0].(*Term), mkStr("\n")), true
 	case "verifContains":
